@@ -206,8 +206,6 @@ Definition skip_meta (fix_meta:bool) (l:str) : str :=
   if fix_meta then skip_groups (length l) l
   else match after_last c_rbrace l with Some r => r | None => l end.
 
-(* load_rest: everything bufr_load_datasubsets does with the text after the descriptor token.
-   sp is the stale index `i` of the C code (number of blanks in front of the current position). *)
 Definition load_token (fix_q:bool) (vt:vtype) (quoted:bool) (tok:str) : tokval :=
   match vt with
   | VT_NONE => TV_none
@@ -222,25 +220,27 @@ Definition load_token (fix_q:bool) (vt:vtype) (quoted:bool) (tok:str) : tokval :
       else match parse_decimal tok with Some (m, e) => TV_dec m e | None => TV_unmodelled end
   end.
 
-Definition load_rest (fix_meta fix_q:bool) (vt:vtype) (rest:str) : lval :=
+(* the text after the descriptor: trailing white space removed, the {..} comment skipped.  The result still carries the
+   blanks in front of the value; their number is the stale index `i` of the C code. *)
+Definition stage_meta (fix_meta:bool) (rest:str) : str :=
   let r1 := rstrip (c_string rest) in
   let r2 := dropwhile is_space r1 in
-  (* meta *)
-  let r3 := if hd_is 123 r2 then skip_meta fix_meta r2 else r1 in
+  if hd_is 123 r2 then skip_meta fix_meta r2 else r1.
+(* associated field "(0x..:..bits)": -> (bits, text of the value, NULL passed to sscanf) *)
+Definition stage_af (r3:str) : option Z * str * bool :=
   let sp := (length r3 - length (dropwhile is_space r3))%nat in
   let r4 := dropwhile is_space r3 in
-  (* associated field *)
-  let '(af, r5, crash) :=
-    if hd_is 40 r4 then
-        match strtok d_af r3 with
-        | None => (None, r4, true)
-        | Some (tok, p) =>
-            let q := dropwhile (fun c => negb (c =? c_rpar)) (skipn sp p) in
-            let q1 := if hd_is 41 q then tl q else q in
-            (Some (scan_hex tok), dropwhile is_space q1, false)
-        end
-    else (None, r4, false) in
-  if crash then mkLV None TV_crash else
+  if hd_is 40 r4 then
+    match strtok d_af r3 with
+    | None => (None, r4, true)
+    | Some (tok, p) =>
+        let q := dropwhile (fun c => negb (c =? c_rpar)) (skipn sp p) in
+        let q1 := if hd_is 41 q then tl q else q in
+        (Some (scan_hex tok), dropwhile is_space q1, false)
+    end
+  else (None, r4, false).
+(* the value token: quoted string or blank-delimited word *)
+Definition stage_tok (fix_q:bool) (vt:vtype) (af:option Z) (r5:str) : lval :=
   if hd_is 34 r5 then
       match strtok d_nlcr (tl r5) with
       | None => mkLV af TV_crash
@@ -251,6 +251,12 @@ Definition load_rest (fix_meta fix_q:bool) (vt:vtype) (rest:str) : lval :=
       | None => mkLV af TV_none
       | Some (tok, _) => mkLV af (load_token fix_q vt false tok)
       end.
+(* load_rest: everything bufr_load_datasubsets does with the text after the descriptor token *)
+Definition load_rest (fix_meta fix_q:bool) (vt:vtype) (rest:str) : lval :=
+  match stage_af (stage_meta fix_meta rest) with
+  | (_, _, true) => mkLV None TV_crash
+  | (af, r5, false) => stage_tok fix_q vt af r5
+  end.
 
 (* ------------------------------------------------------------------ lines *)
 Inductive line :=
